@@ -749,6 +749,21 @@ func genC16(g *h.G) {
 	c.realBlocks()
 }
 
+// safeTx decodes a cell as a transaction; nil when it is not one (errors and panics of the decoder included: the
+// generator must survive a broken implementation so that the oracles can report it)
+func safeTx(x *boc.Cell) (res *tlb.Transaction) {
+	defer func() {
+		if recover() != nil {
+			res = nil
+		}
+	}()
+	var tx tlb.Transaction
+	if tlb.Unmarshal(x, &tx) != nil {
+		return nil
+	}
+	return &tx
+}
+
 // realBlocks: every transaction of the blocks in tlb/testdata and every message inside them
 func (c *c16Gen) realBlocks() {
 	g := c.g
@@ -781,9 +796,8 @@ func (c *c16Gen) realBlocks() {
 			if x.CellType() == boc.OrdinaryCell && x.BitSize() >= 4 {
 				x.ResetCounters()
 				if tag, err := x.ReadUint(4); err == nil && tag == 7 {
-					var tx tlb.Transaction
 					x.ResetCounters()
-					if tlb.Unmarshal(x, &tx) == nil {
+					if safeTx(x) != nil {
 						txCells = append(txCells, x)
 					}
 				}
@@ -802,11 +816,12 @@ func (c *c16Gen) realBlocks() {
 			g.Emit("go.tx.hash", ts)
 			g.NonTrivial(ts)
 			// the messages: the first reference holds in_msg (a reference) and the out_msgs dictionary
-			var tx tlb.Transaction
 			x.ResetCounters()
-			if tlb.Unmarshal(x, &tx) != nil {
+			txp := safeTx(x)
+			if txp == nil {
 				continue
 			}
+			tx := *txp
 			want := map[string]bool{}
 			if tx.Msgs.InMsg.Exists {
 				hs := tx.Msgs.InMsg.Value.Value.Hash(false)
